@@ -1,9 +1,12 @@
 #!/bin/sh
 # seedvalues.sh <seed>... : every quick check on the unchanged tree with other VERIF_SEED values (evidence goes to cache/evidence-seed<N>)
 cd "$(dirname "$0")/.."
+mkdir -p cache/logs
 for sd in "$@"; do
   for id in C01 C02 C03 C04 C05 C06 C07 C08 C09 C10 C11 C12 C13 C14 C15 C16 C17 C18 C19 C20; do
-    out=$(VERIF_SEED=$sd VERIF_EVIDENCE=$(pwd)/cache/evidence-seed$sd python3 tools/check.py $id --tier quick 2>&1 | grep -v "^KNOWN-FINDING\|^WARNING" | tail -2 | tr '\n' ' ' | cut -c1-260)
-    echo "seed=$sd $id rc=$? :: $out"
+    VERIF_SEED=$sd VERIF_EVIDENCE=$(pwd)/cache/evidence-seed$sd python3 tools/check.py $id --tier quick > cache/logs/seed$sd.$id.log 2>&1
+    rc=$?
+    out=$(grep -v "^KNOWN-FINDING\|^WARNING" cache/logs/seed$sd.$id.log | tail -2 | tr '\n' ' ' | cut -c1-260)
+    echo "seed=$sd $id rc=$rc :: $out"
   done
 done
